@@ -426,6 +426,50 @@ func runDiff(r *vf.Run, groupMode bool) {
 		if rid := id + "/reused-object"; r.Want(rid) && len(ds.ColNames()) > 0 {
 			reusedObjectLoop(r, rid, r.RNG(rid), ds, matrix, groupMode)
 		}
+		// (round 7) the NAME of every index file comes to denote another, much smaller index (renamed over it, as a
+		// nightly rebuild does) while the indexes opened from it stay open: they keep answering for the file they hold
+		if pid := id + "/name-reused-while-open"; r.Want(pid) && len(ds.Rows) >= 20 && len(qs) > 0 {
+			small := []oracle.Row{{"zz_other": "1"}, {"zz_other": "2"}}
+			swapped := true
+			for w, p := range paths {
+				side := p + ".next"
+				if err := ix.Build(w, side, small); err != nil || os.Rename(side, p) != nil {
+					swapped = false
+				}
+			}
+			if swapped {
+				n := 0
+				for _, q := range qs {
+					if n >= 25 {
+						break
+					}
+					n++
+					want := oracle.Eval(ds.Rows, ds.Cols, q.e, q.gb)
+					if !groupMode {
+						want.Groups = nil
+					}
+					bad := false
+					for _, cfg := range matrix {
+						r.Eval(1)
+						gb := q.gb
+						if !groupMode {
+							gb = nil
+						}
+						res, err := ix.Exec(cfg.idx, q.e, gb)
+						if diff := oracle.CompareResult(res, err, want, gb); diff != "" {
+							r.Violation(pid, "answer", map[string]any{"config": cfg.name, "difference": diff, "expr": q.e.String(), "group_by": fmt.Sprintf("%q", gb), "rows": len(ds.Rows),
+								"note": "the index was opened before its file name was given to another, smaller index by rename; the open index must keep answering for the file it holds"})
+							bad = true
+							break
+						}
+					}
+					if bad {
+						break
+					}
+				}
+				r.Count("datasets_queried_after_their_file_name_was_reused", 1)
+			}
+		}
 	})
 }
 
